@@ -217,8 +217,10 @@ class C01(Prop):
             kmodel.loss_of(y, c['data_seed'] + 31 * t, c['N']).backward()
             y2 = twin(x)
             kmodel.loss_of(y2, c['data_seed'] + 31 * t, c['N']).backward()
-            tg = kmodel.grads_of(twin)
-            D = {n: kmodel.combined_grad(tmods[n], tg, n) for n in names}
+            # D is the gradient the model itself holds before the step (a copy taken now).  The twin without K-FAC gives the same values
+            # up to kernel selection (torch's hook plumbing can re-stride size-1 dimensions, see C10), which is not this property's subject.
+            tg = kmodel.grads_of(model)
+            D = {n: kmodel.combined_grad(mods[n], tg, n) for n in names}
             if c['clip'] == 'active':
                 # choose kl so that nu is about 0.3-0.7: the factors are already updated (hooks), so <V,D> can be predicted
                 sd0 = pre.state_dict()['layers']
